@@ -31,7 +31,8 @@ ASSUMPTIONS = [
 ]
 OPEN_STATEMENTS = [
     'canonicity (linear independence of normal-ordered monomials => equal operators have equal normal forms) is not proved for any algebra: checked by the canonicity stream (oracle) only',
-    'soundness is proved against the abstract (anti)commutation relations (any ring interpretation satisfying CAR / CCR / [q,p] = i hbar), not yet instantiated with the bit-mask / polynomial Spec actions: that instance is checked by spec.eq on every generated case',
+    'soundness is proved against the abstract (anti)commutation relations (any ring interpretation satisfying CAR / CCR / [q,p] = i hbar); for the fermionic Spec the CAR are proved state by state (spec_car_*), but the packaging as a ring interpretation (linear extension) is not formalised, and the CCR / [q,p] relations of the polynomial Spec are not proved: these instances are checked by spec.eq on every generated case',
+    'no concrete non-trivial ring interpretation is exhibited in Lean for the Relations hypotheses (non-vacuity of the abstract soundness theorems rests on the standard Fock / Weyl representations)',
     'InteractionOperator branch, chemist_ordered and reorder: correspondence + oracle only (no theorem)',
     'termination fuel: noTerm uses fuel len(term)+1; sufficiency is checked by the correspondence run (an exhausted fuel would drop terms and break the tie) rather than proved',
 ]
